@@ -43,6 +43,7 @@ class Exec:
         self.cfg = cfg
         self.scalars = cfg.get("scalars", {})       # unparse-string or ('sub', attr) -> V
         self.assume = cfg.get("assume", {})         # unparse-string of a condition -> bool
+        self.dropped = cfg.get("dropped_body", {})   # assumed condition -> source text of the branch that is dropped with it
 
     # ---- expressions ----
     def num(self, v):
@@ -384,6 +385,13 @@ class Exec:
         if isinstance(s, ast.If):
             csrc = ast.unparse(s.test)
             if csrc in self.assume:
+                if csrc in self.dropped:
+                    # a branch that cannot be taken over an ordered field is dropped from the translation - but only in the recorded
+                    # shape: what it DOES in floating point is part of the code the properties are claimed for
+                    gone = s.orelse if self.assume[csrc] else s.body
+                    txt = "; ".join(ast.unparse(g_) for g_ in gone)
+                    if txt != self.dropped[csrc]:
+                        raise Untranslatable(f"the branch guarded by `{csrc}` is `{txt}`, expected `{self.dropped[csrc]}`")
                 return self.run((s.body if self.assume[csrc] else s.orelse) + rest, env)
             if isinstance(s.test, ast.Call):
                 inl = self.inline_expr(s.test)
@@ -495,7 +503,8 @@ def generate(method_cls):
                    "indexed": {"self.M": R("M"), "self.Z": R("Z")},
                    # `globalR != globalR` is the NaN guard of the repair F11: never true over an ordered field (the theorems'
                    # setting); the Float driver and the implementation are compared on overflow-free runs
-                   "assume": {"curr_point is None": False, "left_point is None": False, "globalR != globalR": False}})
+                   "assume": {"curr_point is None": False, "left_point is None": False, "globalR != globalR": False},
+                   "dropped_body": {"globalR != globalR": "globalR = -np.inf"}})
         t = ex.run(func_ast(method_cls.CalculateGlobalR).body, {"curr_point": V("O", "cur"), "left_point": V("O", "left")})
         return tree_value(t, "cur.globalR", None, False)
     attempt("calculateGlobalR", "(left cur : Pt α) (r M Z : α)", "α",
